@@ -358,6 +358,13 @@ func (tb *TB) Eq(a, b *Term) *Term {
 		if ba == bb && ba != nil {
 			return tb.Bool((ca & mask(a.W)) == (cb & mask(a.W)))
 		}
+		// x == x ^ k  (k != 0) is false
+		if b.Op == OBXor && b.Args[1].IsConst() && b.Args[1].Val != 0 && b.Args[0] == a {
+			return tb.False
+		}
+		if a.Op == OBXor && a.Args[1].IsConst() && a.Args[1].Val != 0 && a.Args[0] == b {
+			return tb.False
+		}
 		if dec, v := linEqual(a, b); dec && !noLin {
 			return tb.Bool(v)
 		}
